@@ -836,7 +836,7 @@ func TypeConforms(ctx map[ast.Variable]ast.BaseTerm, left ast.BaseTerm, right as
 	if leftVar, ok := left.(ast.Variable); ok {
 		bound, ok := ctx[leftVar]
 		if !ok {
-			return true // Unknown type variable: conservatively assume conformance.
+			return false // Unknown type variable: nothing is known about its members.
 		}
 		return TypeConforms(ctx, bound, right)
 	}
